@@ -456,36 +456,29 @@ def model_and_replay(rep: Report, res):
 # ----------------------------------------------------------------------------------------
 
 
-def collect(case, rects, table: RowTable, rep: Report, max_h: int = MAXH):
-    """Render one case, record content() for ``rects`` (None = all); returns a canvas entry
-    plus its traces (row ids refer to ``table``), or None if the case is unusable."""
-    try:
-        widget, canvas, announced, later = render_case(case)
-    except tlc.MachineryError:
-        raise
-    except Exception as e:
-        rep.violation(
-            f"render-raises:{case['style']}:{case['sizing']}:{type(e).__name__}",
-            f"UrwidImage.render raised {type(e).__name__}: {e}; case={json.dumps(case)}",
-            {"case": case},
-        )
-        return None
+def record_canvas(case, canvas, announced, req, size_after, rects, table: RowTable, rep: Report,
+                  max_h: int, step: int = -1):
+    """Record content() of one real canvas for ``rects`` (None = every sub-rectangle, "full" =
+    the untrimmed rectangle only).  ``req`` = the size the widget was asked to render
+    (rows 0 = flow).  Returns (entry, traces, meta, geo), "big" or None."""
     W, H = canvas.cols(), canvas.rows()
     if W > MAXW or H > max_h:
         return "big"
     # what the canvas shows when it is rendered: the reference for every later trim
     full = [table.add(row_bytes(r), reference=True) for r in canvas.content()]
     iw, ih = canvas._ti_image_size  # evidence classification only
-    try:
-        size_after = later()  # the image object is re-rendered elsewhere; the canvas is kept
-    except Exception as e:
-        rep.violation(
-            f"render-raises:{case['style']}:history:{type(e).__name__}",
-            f"re-rendering the image raised {type(e).__name__}: {e}; case={json.dumps(case)}",
-            {"case": case},
-        )
-        return None
-    entry = {"W": W, "H": H, "kind": "text" if case["style"] == "block" else "gfx", "full": full}
+    if callable(size_after):
+        try:
+            size_after = size_after()  # the image is re-rendered elsewhere; the canvas is kept
+        except Exception as e:
+            rep.violation(
+                f"render-raises:{case['style']}:history:{type(e).__name__}",
+                f"re-rendering the image raised {type(e).__name__}: {e}; case={json.dumps(case)}",
+                {"case": case},
+            )
+            return None
+    entry = {"W": W, "H": H, "kind": "text" if case["style"] == "block" else "gfx", "full": full,
+             "reqW": req[0], "reqH": req[1]}
     traces, meta = [], []
     if rects == "full":
         rects = [(0, 0, W, H)]
@@ -500,16 +493,90 @@ def collect(case, rects, table: RowTable, rep: Report, max_h: int = MAXH):
                 f"content-raises:{case['style']}:{type(e).__name__}",
                 f"content({tl}, {tt}, {cols}, {rows}) of a {W}x{H} canvas raised "
                 f"{type(e).__name__}: {e}; case={json.dumps(case)}",
-                {"case": case, "rect": [tl, tt, cols, rows]},
+                {"case": case, "rect": [tl, tt, cols, rows], "step": step},
             )
             continue
         is_full = (tl, tt, cols, rows) == (0, 0, W, H)
         traces.append({"tl": tl, "tt": tt, "cols": cols, "rows": rows, "got": got,
                        "announced": announced if is_full else -1})
         meta.append((tl, tt, cols, rows))
-    geo = {"W": W, "H": H, "iw": iw, "ih": ih,
-           "resized": bool(case.get("history")) and tuple(size_after) != (iw, ih)}
+    geo = {"W": W, "H": H, "iw": iw, "ih": ih, "step": step,
+           "resized": size_after is not None and tuple(size_after) != (iw, ih)}
     return entry, traces, meta, geo
+
+
+def collect(case, rects, table: RowTable, rep: Report, max_h: int = MAXH, only_step: int = -1):
+    """Render one case and record its canvas(es); returns a list of record_canvas results."""
+    if case.get("session"):
+        return collect_session(case, rects, table, rep, only_step)
+    try:
+        widget, canvas, announced, later = render_case(case)
+    except tlc.MachineryError:
+        raise
+    except Exception as e:
+        rep.violation(
+            f"render-raises:{case['style']}:{case['sizing']}:{type(e).__name__}",
+            f"UrwidImage.render raised {type(e).__name__}: {e}; case={json.dumps(case)}",
+            {"case": case},
+        )
+        return []
+    req = (case["W"], case["H"] if case["sizing"] == "box" else 0)
+    r = record_canvas(case, canvas, announced, req, later if case.get("history") else None,
+                      rects, table, rep, max_h)
+    return [r]
+
+
+def collect_session(case, rects, table: RowTable, rep: Report, only_step: int = -1):
+    """A session: ONE image object, up to two widgets sharing it, a sequence of steps
+        ["render", widget index, cols, rows (0 = flow)]   after widget._invalidate()
+        ["set_size", width]                               image.set_size(width) by the application
+    EVERY freshly rendered canvas is recorded and judged like any other canvas: it must have the
+    requested size and every trim of it must equal the crop of its own untrimmed content."""
+    from term_image.image import BlockImage, ITerm2Image, KittyImage
+    from term_image.widget import UrwidImage, UrwidImageCanvas
+
+    stubs.set_identity(case["ident"])
+    fg, bg = case["fg_bg"]
+    cell = None if case["style"] == "block" else tuple(case.get("cell") or CELL)
+    stubs.set_term(size=(80, 30), cell=cell, fg_bg=(fg and tuple(fg), bg and tuple(bg)))
+    rng = random.Random(case["seed"])
+    img = imgs.make_image(rng, case["mode"], case["src"][0], case["src"][1], case["pixstyle"])
+    cls = {"block": BlockImage, "kitty": KittyImage, "iterm2": ITerm2Image}[case["style"]]
+    image = cls(img)
+    sargs = "+" + case["sargs"] if case["sargs"] else ""
+    widgets = [UrwidImage(image, f"{case['ha']}.{case['va']}{case['alpha']}{sargs}",
+                          upscale=case["upscale"]),
+               UrwidImage(image, f"<.^{case['alpha']}{sargs}", upscale=case["upscale2"])]
+    UrwidImageCanvas._ti_disguise_state = 0
+    out = []
+    for k, st in enumerate(case["session"]):
+        try:
+            if st[0] == "set_size":
+                image.set_size(st[1])
+                continue
+            _, wi, w, h = st
+            widget = widgets[wi]
+            widget._invalidate()  # a redraw: urwid's canvas cache must not hand back the old canvas
+            size = (w, h) if h else (w,)
+            announced = widget.rows(size) if not h else -1
+            canvas = widget.render(size)
+        except tlc.MachineryError:
+            raise
+        except Exception as e:
+            rep.violation(
+                f"render-raises:{case['style']}:session:{type(e).__name__}",
+                f"step {k} {st} raised {type(e).__name__}: {e}; case={json.dumps(case)}",
+                {"case": case, "step": k},
+            )
+            break
+        if not isinstance(canvas, UrwidImageCanvas):
+            raise tlc.MachineryError(f"render() did not return an UrwidImageCanvas: {type(canvas)}")
+        if only_step >= 0 and k != only_step:
+            continue
+        out.append(record_canvas(case, canvas, announced, (w, h), None,
+                                 rects if h or rects is not None else "full", table, rep,
+                                 MAXH if rects is None and h else SWEEP_MAX_H, step=k))
+    return out
 
 
 def canaries(batch):
@@ -622,25 +689,27 @@ def traces_part(rep: Report, replay: dict | None, t_start: float) -> None:
             break
         if cur is None:
             cur = new_batch()
-        r = collect(case, rects, cur["_table"], rep,
-                    max_h=MAXH if rects is None else SWEEP_MAX_H)
-        if r is None:
-            continue
-        if r == "big":
-            skipped += 1
-            continue
-        entry, traces, meta, geo = r
-        cur["canvases"].append(entry)
-        ci = len(cur["canvases"])
-        for t, m in zip(traces, meta):
-            t["canvas"] = ci
-            cur["traces"].append(t)
-            cur["_meta"].append((case, m, geo))
-        used += len(traces)
-        ncanv += 1
-        if ncanv <= 3:
-            rep.sample({"case": case, "canvas": [geo["W"], geo["H"]], "image": [geo["iw"], geo["ih"]],
-                        "trims": len(traces)})
+        results = collect(case, rects, cur["_table"], rep,
+                          max_h=MAXH if rects is None else SWEEP_MAX_H,
+                          only_step=replay["scenario"].get("step", -1) if replay else -1)
+        for r in results:
+            if r is None:
+                continue
+            if r == "big":
+                skipped += 1
+                continue
+            entry, traces, meta, geo = r
+            cur["canvases"].append(entry)
+            ci = len(cur["canvases"])
+            for t, m in zip(traces, meta):
+                t["canvas"] = ci
+                cur["traces"].append(t)
+                cur["_meta"].append((case, m, geo))
+            used += len(traces)
+            ncanv += 1
+            if ncanv <= 3:
+                rep.sample({"case": case, "canvas": [geo["W"], geo["H"]],
+                            "image": [geo["iw"], geo["ih"]], "trims": len(traces)})
         if len(cur["traces"]) >= batch_target:
             batches.append(cur)
             cur = None
@@ -737,7 +806,7 @@ def traces_part(rep: Report, replay: dict | None, t_start: float) -> None:
                 f"trim_top={tt}, cols={cols}, rows={rows}) on a {W}x{H} canvas (image {iw}x{ih}, "
                 f"{case['sizing']}, h_align {case['ha']!r}, v_align {case['va']!r}); "
                 f"case={json.dumps(case)}",
-                {"case": case, "rect": [tl, tt, cols, rows]},
+                {"case": case, "rect": [tl, tt, cols, rows], "step": geo["step"]},
             )
     rep.extra["accepted_by_kind"] = seen
     if not replay and not rep.violations:
